@@ -715,7 +715,15 @@ pub fn anchors() -> Vec<Ty> {
         false,
         true,
     ));
-    v.push(sstruct("AZstArrTail", vec![Ty::Array(b(zst), 3), fvec(prim(U8), L::U8)], false, false, true));
+    v.push(sstruct("AZstArrTail", vec![Ty::Array(b(zst.clone()), 3), fvec(prim(U8), L::U8)], false, false, true));
+    // containers of zero-sized items (length types of at most 16 bits: the reference decoder materialises the items)
+    v.push(fvec(Ty::Unit, L::U8));
+    v.push(fvec(Ty::Array(b(prim(U16)), 0), L::U16));
+    v.push(fvec(zst.clone(), L::U8));
+    v.push(flex(Ty::Unit, L::U8));
+    v.push(flex(zst.clone(), L::U16));
+    v.push(sstruct("AZstVecTail", vec![prim(U16), fvec(Ty::Unit, L::U8)], false, false, true));
+    v.push(flex(fvec(Ty::Unit, L::U8), L::U8));
 
     let mut seen = std::collections::HashSet::new();
     v.retain(|t| seen.insert(t.rust()));
